@@ -45,6 +45,7 @@ type COp struct {
 type CacheHistCase struct {
 	Declared  []string `json:"declared"`
 	Ops       []COp    `json:"ops"`
+	ExpiryS   int      `json:"expiry_s"` // expiry age of the store (0 = none); handles taken by this history pin their secrets
 	FailRead  bool     `json:"fail_read"`
 	FailWrite []int    `json:"fail_write"` // write calls (1-based) that fail
 }
@@ -103,7 +104,7 @@ func runC13Hist(t *testing.T, c CacheHistCase) (*h.Violation, h.Info) {
 		}()
 		st, err = setec.NewStore(context.Background(), setec.StoreConfig{
 			Client: svc, Secrets: append([]string{}, declared...), AllowLookup: true, Cache: cache,
-			PollTicker: tick, TimeNow: clock.Now, Logf: nolog,
+			PollTicker: tick, TimeNow: clock.Now, Logf: nolog, ExpiryAge: time.Duration(c.ExpiryS) * time.Second,
 		})
 		if err != nil {
 			return h.V("store-survives-cache-failures", "NewStore failed (cache read fails=%v, failing writes=%v): %v", c.FailRead, c.FailWrite, err)
@@ -222,6 +223,9 @@ func runC13Hist(t *testing.T, c CacheHistCase) (*h.Violation, h.Info) {
 			svc.Set(o.Name, nver[o.Name], c13Value(o.Name, nver[o.Name]))
 		case "advance":
 			clock.Advance(7)
+			if c.ExpiryS > 0 {
+				info.Class("clock-advanced-with-expiry-age")
+			}
 		case "read":
 			if hd := handles[o.Name]; hd != nil {
 				got := hd.Get()
@@ -238,6 +242,18 @@ func runC13Hist(t *testing.T, c CacheHistCase) (*h.Violation, h.Info) {
 		case "poll":
 			installs := false
 			for n, m := range known {
+				// undeclared, unreferenced and stale: legitimately expires at this poll (C19 decides that)
+				isDecl := false
+				for _, d := range declared {
+					if d == n {
+						isDecl = true
+					}
+				}
+				if c.ExpiryS > 0 && !isDecl && handles[n] == nil && clock.Unix()-m.last > int64(c.ExpiryS) {
+					delete(known, n)
+					installs = true
+					continue
+				}
 				if v, _, _ := svc.Active(n); v != m.ver {
 					installs = true
 					m.ver = v
@@ -316,6 +332,7 @@ var c13hist = &h.Campaign[CacheHistCase]{
 			}
 			return o
 		}), 1, 25).Draw(rt, "ops")
+		c.ExpiryS = rapid.SampledFrom([]int{0, 0, 10}).Draw(rt, "expiry")
 		if rapid.IntRange(0, 3).Draw(rt, "faulty") == 0 {
 			c.FailRead = rapid.Bool().Draw(rt, "failread")
 			c.FailWrite = rapid.SliceOfN(rapid.IntRange(1, 12), 0, 4).Draw(rt, "failwrite")
@@ -644,13 +661,19 @@ func TestC13Prefixes(t *testing.T) {
 // the permissions and directory creation.
 func TestC13FileCacheModes(t *testing.T) {
 	h.FirstShardOnly(t)
-	rec := h.NewRec("C13", "filecache-modes", "FileCache under umask 0: directory created 0700, file written 0600, content read back byte-exact, for 4 payloads; each a non-trivial case")
+	rec := h.NewRec("C13", "filecache-modes", "FileCache under umask 0: directory created 0700, file written 0600, content read back byte-exact, for 6 payloads, two of them replacing a longer, world-readable file that is already there; each a non-trivial case")
 	defer rec.Flush()
 	old := syscall.Umask(0)
 	defer syscall.Umask(old)
 	dir := h.Scratch(t)
-	for i, payload := range [][]byte{[]byte(`{}`), []byte(`{"a":{"secret":{"Value":"eA==","Version":1},"lastAccess":"0"}}`), bytes.Repeat([]byte("x"), 70000), {}} {
+	for i, payload := range [][]byte{[]byte(`{}`), []byte(`{"a":{"secret":{"Value":"eA==","Version":1},"lastAccess":"0"}}`), bytes.Repeat([]byte("x"), 70000), {}, []byte(`{"b":{}}`), []byte(`{}`)} {
 		p := filepath.Join(dir, fmt.Sprintf("sub%d", i), "deeper", "cache.json")
+		if i >= 4 {
+			// a file is already there, longer than the new contents and readable by everybody
+			os.MkdirAll(filepath.Dir(p), 0o700)
+			os.WriteFile(p, bytes.Repeat([]byte("old contents "), 20), 0o666)
+			os.Chmod(p, 0o666)
+		}
 		fc, err := setec.NewFileCache(p)
 		if err != nil {
 			t.Fatalf("NewFileCache: %v", err)
